@@ -12,6 +12,8 @@
                                                       first sweep that finds the entry idle (census only)
    slowclose <msg fields> <hook> <dialerr> <wok> <g1/g2/...>   datagram fed while the sweeper is between the two
                                                       halves of CloseWithErr on that id's expired entry (census only)
+   expirenew <target> <msg fields> <hook> <dialerr> <wok> <g1/g2/...>   as slowclose, the datagram has another id than the
+                                                      expiring session <target> (census only)
    hold <sid> <pid> <fid> <fcnt> <addr> <data>        receive-loop lookup only (pointer kept)
    release <hook> <dialerr> <wok> <victim>            entry.Feed on the held pointer
    reply <k> <raddr> <data> <ok|err|block|big>        packet arrives on socket k; result of SendMessage
@@ -206,6 +208,43 @@ def step (d : DS) (line : String) : DS × String :=
       else if intervalMs = 0 then (d, "bad-op")
       else
         let target : Option (Nat × Nat) := match d.s.tbl m.sid with
+          | some i => match d.s.ent i with
+            | some e => match e.conn with
+              | some k => if d.s.sock k == 0 then some (i, e.last) else none
+              | none => none
+            | none => none
+          | none => none
+        match target with
+        | none => let r := flush d; (r.1, "skip | " ++ summary r.1.s)
+        | some (i, lastAct) =>
+          let cand := ((lastAct + d.timeout) / intervalMs + 1) * intervalMs
+          let tk := if cand > d.now then cand else (d.now / intervalMs + 1) * intervalMs
+          let ticks := ticksIn d.now (tk - d.now)
+          let pre := ticks.dropLast
+          let d1 := doTicks d pre gs
+          let d2 := { d1 with now := tk }
+          match feedLabels d2 m hook de wok "_" with
+          | some ls =>
+            let c := cfg d2
+            let s := Hy.UdpSession.step c d2.s (.tick tk)
+            let s := Hy.UdpSession.step c s (.swClose i)
+            let s := run c s ([.recv m, .lookup, .insert tk] ++ ls)
+            let s := Hy.UdpSession.step c s (.exitB i)
+            let s := (gs.getD pre.length []).foldl (closeBySw c) s
+            let s := Hy.UdpSession.step c s .swDone
+            let r := flush (settle { d2 with s := s })
+            (r.1, "slowc | " ++ summary r.1.s)
+          | none => (d, "bad-op")
+    | _, _ => (d, "bad-op")
+  | ["expirenew", tgt, sid, pid, fid, fcnt, addr, data, hook, de, wok, groups] =>
+    -- as slowclose, but the datagram carries another id than the expiring session `tgt`; (closeA: closed,
+    -- socket closed) and not yet the second (exitB) when a datagram with that id is fed; census only
+    match mkMsg sid pid fid fcnt addr data, (groups.splitOn "/").mapM parseIds with
+    | some m, some gs =>
+      if d.s.rl != .idle ∨ d.s.down then (d, "busy")
+      else if intervalMs = 0 then (d, "bad-op")
+      else
+        let target : Option (Nat × Nat) := match d.s.tbl (tgt.toNat?.getD m.sid) with
           | some i => match d.s.ent i with
             | some e => match e.conn with
               | some k => if d.s.sock k == 0 then some (i, e.last) else none
